@@ -50,13 +50,30 @@ func vC15Run(name string, obs Observable[int64], p *vProbe, want []vEv, wantSubs
 	rec := &vRecorder{}
 	if vC15Async {
 		p.asyncPlay = true
+		if vChoice("ownThread", 2) == 1 {
+			// the attempt may end at any moment, also before the operator waits for it
+			p.asyncOwn = true
+			p.yieldTeardown = true
+		} else {
+			// the attempt ends while the operator is parked waiting for it; releasing takes time
+			p.yieldTeardown = true
+		}
 		vGo(func() { obs.SubscribeWithContext(context.Background(), vObs(rec, vFlatInt)) })
+		p.vDrive()
 		vQuiesce()
 	} else {
 		obs.SubscribeWithContext(context.Background(), vObs(rec, vFlatInt))
 	}
 	vCheckGrammar(name, rec)
 	vAssert(!p.overlap, name+": an attempt was started before the previous one was over and released")
+	if p.asyncOwn {
+		// with free-running attempts the operator may ask "is it over?" while the teardown is still
+		// in progress on the attempt's thread, and be told yes (Wait returns as soon as the
+		// subscription is marked done): a listed finding, kept apart from the driven case below
+		vAssert(!p.unreleased, name+": an attempt was started before the teardown of the previous one had run [the attempt ended before the operator waited for it]")
+	} else {
+		vAssert(!p.unreleased, name+": an attempt was started before the teardown of the previous one had run")
+	}
 	vAssert(p.live == 0, name+": an attempt is still subscribed at the end")
 	vAssert(p.subs == wantSubs, name+": the source was subscribed a different number of times than the definition prescribes")
 	vSameEvents(name, rec.evs, want)
